@@ -18,7 +18,7 @@ RULE = ('cases = chains (curve, distance, order; k = 0..n+1), full product below
 ASSUMPTIONS = [
     'distances / residuals are the library\'s own primitives on the segment (shortest_distance_points, perpendicular_distance_points, linear_fit_residuals_points)',
     'ordering scores compared with relative 1e-9 plus a noise floor of 64 eps x magnitude (exactly collinear candidates are interchangeable)',
-    'farthest-point tolerance d >= dmax - (1e-9(1+dmax)+eps); if every distance < eps any interior point is admissible (library guard)',
+    'farthest-point tolerance is relative: d >= dmax - (1e-9 dmax + 64 eps max|coordinate|); if every distance < eps any interior point is admissible (library guard)',
 ]
 BOUNDS = {
     'quick': {'A12 / Y013 re-embedded (y*2^-34; x*2^-20,y*2^-27; y*2^34)': 'n=5 / n=7', 'trace windows': 'web0_reduced.csv w=14, usr0.csv[::64] w=16', 'A': 'n<=4 complete', 'A12 (x0=0,gaps 1-2)': 'n=5 complete', 'B,C': 'n=4', 'Y013 (unit gaps, y in 0,1,3)': 'n=7 complete'},
